@@ -402,6 +402,21 @@ def _run(chk, tier):
             raise core.ToolError("judge self-test: %d of %d falsified runs were accepted, e.g. %s" % (
                 len(fc) - len(fbad), len(fc), [(fc[k]["op"], script_str(fc[k]["script"]), fo[k]["err"], fo[k]["rn"], len(fo[k]["buf"])) for k in acc]))
     chk.extra["falsified_runs_rejected"] = len(fc)
+    # memory-safety side conditions on the real code (thorough): the driver under valgrind memcheck;
+    # the scripted reader inspects every buffer it is handed, so uninitialised spare capacity passed
+    # to read() or exposed by set_len is reported.  This is the code-level counterpart of the model
+    # invariants NoBad / CarrySound; it is evidence (and model drift), not a property verdict.
+    if tier == "thorough" and shutil.which("valgrind"):
+        sub = cases[::max(1, len(cases) // 4000)] + rcases[:800]
+        path = os.path.join(chk.work, "cases_memcheck.ndjson")
+        core.write_ndjson(path, sub)
+        p = core.run_cmd(["valgrind", "-q", "--error-exitcode=97", os.path.join(bindir, "iohelp"), "run", path], check=False, timeout=3000)
+        if p.returncode not in (0, 97):
+            raise core.ToolError("valgrind run failed rc=%s: %s" % (p.returncode, p.stderr[-1500:]))
+        chk.extra["memcheck"] = {"cases": len(sub), "errors_reported": p.returncode == 97,
+                                 "first_report": p.stderr[:1500] if p.returncode == 97 else ""}
+        if p.returncode == 97:
+            core.log("memcheck reported errors (recorded in the evidence; not a property verdict)")
     # 5. the print macros' own writer loop (unix/print.rs)
     precs = run_print(chk, bindir, tier)
     # accounting
@@ -424,7 +439,8 @@ def _run(chk, tier):
     chk.extra["random_cases"] = len(rcases)
     chk.extra["b1_real_log_equals_model_behaviour"] = b1
     chk.extra["trace_replay_conforming"] = nconf
-    chk.extra["model_conformance"] = (b1 == len(cases) and nconf == len(allc))
+    chk.extra["model_conformance"] = (b1 == len(cases) and nconf == len(allc)
+                                      and not chk.extra.get("memcheck", {}).get("errors_reported", False))
     noconf = [i for i in range(len(rcases)) if i not in rconf][:5]
     if noconf:
         chk.extra["random_not_conforming_examples"] = [{"case": {k: v for k, v in rcases[i].items() if k != "data"}, "observed": {k: v for k, v in routs[i].items() if k != "buf"}} for i in noconf]
